@@ -68,10 +68,10 @@ Definition hevc_ps_maps (spss ppss : list (list N)) : res ((N -> option hsps) * 
 
 (* GetAVCProtectRanges / GetHEVCProtectRanges with given maps *)
 Definition avc_protect_ranges spsmap ppsmap (sch : scheme) (sample : list N) : res (list ssp) :=
-  protect_ranges avc_is_video (avc_hdr spsmap ppsmap) sch sample.
+  protect_ranges_r avc_is_video (avc_hdr spsmap ppsmap) sch sample.
 
 Definition hevc_protect_ranges spsmap ppsmap (sch : scheme) (sample : list N) : res (list ssp) :=
-  protect_ranges hevc_is_video (hevc_hdr spsmap ppsmap) sch sample.
+  protect_ranges_r hevc_is_video (hevc_hdr spsmap ppsmap) sch sample.
 
 (* getAVCProtFunc(avcC): the maps are built once (an error fails InitProtect: None here);
    getHEVCProtFunc(hvcC): the maps are rebuilt for every sample and an error fails that sample *)
